@@ -117,12 +117,19 @@ func (dl *datalog) nextWritableSegmentID() (uint16, uint64, error) {
 }
 
 func (dl *datalog) swapSegment() error {
-	// Pick unfilled segment.
+	// Pick the newest segment if it's unfilled.
+	// Older segments are never written again, even if they are not marked as full (the flag of
+	// an empty segment is not persisted): recovery replays segments in sequence order, so
+	// appending to an older segment would reorder the log.
+	var newest *segment
 	for _, seg := range dl.segments {
-		if seg != nil && !seg.meta.Full {
-			dl.curSeg = seg
-			return nil
+		if seg != nil && (newest == nil || seg.sequenceID > newest.sequenceID) {
+			newest = seg
 		}
+	}
+	if newest != nil && !newest.meta.Full {
+		dl.curSeg = newest
+		return nil
 	}
 
 	// Create new segment.
